@@ -56,17 +56,15 @@ package geom
 //@   prop C04
 //@   mode fp
 //@   requires [nonnil] b != nil
-//@   requires [nonan] noNaNBox(*b)
-//@   ensures [no_point] result <==> !(exists x float64, y float64 :: inBox(*b, x, y))
+//@   ensures [no_point] noNaNBox(*b) ==> (result <==> !(exists x float64, y float64 :: inBox(*b, x, y)))
 //@   modifies nothing
 
 //@ func (b *Bounds) Overlaps
 //@   prop C04
 //@   mode fp
 //@   requires [nonnil] b != nil && b2 != nil
-//@   requires [nonan] noNaNBox(*b) && noNaNBox(*b2)
-//@   ensures [sound] result ==> inBox(*b, goMax(b.Min.X, b2.Min.X), goMax(b.Min.Y, b2.Min.Y)) && inBox(*b2, goMax(b.Min.X, b2.Min.X), goMax(b.Min.Y, b2.Min.Y))
-//@   ensures [complete] (exists x float64, y float64 :: inBox(*b, x, y) && inBox(*b2, x, y)) ==> result
+//@   ensures [sound] noNaNBox(*b) && noNaNBox(*b2) && result ==> inBox(*b, goMax(b.Min.X, b2.Min.X), goMax(b.Min.Y, b2.Min.Y)) && inBox(*b2, goMax(b.Min.X, b2.Min.X), goMax(b.Min.Y, b2.Min.Y))
+//@   ensures [complete] noNaNBox(*b) && noNaNBox(*b2) && (exists x float64, y float64 :: inBox(*b, x, y) && inBox(*b2, x, y)) ==> result
 //@   modifies nothing
 
 //@ func (b *Bounds) extendPoint
@@ -150,10 +148,9 @@ package geom
 //@   prop C04
 //@   mode fp
 //@   requires [nonnil] b != nil
-//@   requires [nonan] noNaNBox(*b) && (b2 != nil ==> noNaNBox(*b2))
-//@   ensures [nil_noop] b2 == nil ==> *b == old(*b)
-//@   ensures [join_min] b2 != nil ==> b.Min.X == goMin(old(b.Min.X), old(b2.Min.X)) && b.Min.Y == goMin(old(b.Min.Y), old(b2.Min.Y))
-//@   ensures [join_max] b2 != nil ==> b.Max.X == goMax(old(b.Max.X), old(b2.Max.X)) && b.Max.Y == goMax(old(b.Max.Y), old(b2.Max.Y))
+//@   ensures [nil_noop] b2 == nil ==> biteq(*b, old(*b))
+//@   ensures [join_min] b2 != nil && old(noNaNBox(*b) && noNaNBox(*b2)) ==> b.Min.X == goMin(old(b.Min.X), old(b2.Min.X)) && b.Min.Y == goMin(old(b.Min.Y), old(b2.Min.Y))
+//@   ensures [join_max] b2 != nil && old(noNaNBox(*b) && noNaNBox(*b2)) ==> b.Max.X == goMax(old(b.Max.X), old(b2.Max.X)) && b.Max.Y == goMax(old(b.Max.Y), old(b2.Max.Y))
 //@   modifies *b
 
 //@ -- ------------------------------------------------------------ iterators
@@ -282,3 +279,17 @@ package geom
 //@     invariant [same] sumLenP(*mp, *k) + sumLen((*mp)[*k], *j) + *i == old(sumLenP(*mp, *k) + sumLen((*mp)[*k], *j) + *i)
 //@     using sumLenP_mono(*mp, *k+1, len(*mp)), sumLen_mono((*mp)[*k], *j+1, len((*mp)[*k]))
 //@     decreases len(*mp) - *k, len((*mp)[*k]) - *j
+
+//@ -- ------------------------------------------------------- C01: box shortcuts
+//@ pred boxesShareArea(a Bounds, b Bounds) = goMax(a.Min.X, b.Min.X) < goMin(a.Max.X, b.Max.X) && goMax(a.Min.Y, b.Min.Y) < goMin(a.Max.Y, b.Max.Y)
+
+//@ func (b *Bounds) Intersection
+//@   prop C01, C04
+//@   mode fp
+//@   opt boxcase
+//@   requires [nonnil] b != nil && p != nil
+//@   requires [boxcase] typeof(p) == *Bounds && p.(*Bounds) != nil
+//@   requires [nonan] noNaNBox(*b) && noNaNBox(*p.(*Bounds))
+//@   ensures [nil_iff_no_area] (result == nil) <==> !boxesShareArea(*b, *p.(*Bounds))
+//@   ensures [common_rect] result != nil ==> typeof(result) == *Bounds && fresh(result.(*Bounds)) && *result.(*Bounds) == Bounds(Point(goMax(b.Min.X, p.(*Bounds).Min.X), goMax(b.Min.Y, p.(*Bounds).Min.Y)), Point(goMin(b.Max.X, p.(*Bounds).Max.X), goMin(b.Max.Y, p.(*Bounds).Max.Y)))
+//@   modifies nothing
